@@ -146,18 +146,21 @@ def run_c06(it):
     def glen(name, fn):
         r = dtwx.guarded(fn)
         lens.append([name, -3 if (dtwx.is_raised(r)) else int(r)])
-    glen("py:_distance_matrix_length", lambda: dtw._distance_matrix_length(blk, n))
+    # private helpers are observed only while they exist (renaming them is no violation of the property)
+    if hasattr(dtw, "_distance_matrix_length"):
+        glen("py:_distance_matrix_length", lambda: dtw._distance_matrix_length(blk, n))
     if it["noblock"]:
         glen("c:dtw_cc.distance_matrix_length", lambda: dtw_cc.distance_matrix_length(dtw_cc.DTWBlock(0, 0, 0, 0), n))
     else:
         glen("c:dtw_cc.distance_matrix_length",
              lambda: dtw_cc.distance_matrix_length(dtw_cc.DTWBlock(rb, re, cb, ce, triu=it["triu"]), n))
     # index lists
-    r = dtwx.guarded(lambda: dtw._distance_matrix_idxs(blk, n))
-    if dtwx.is_raised(r):
-        idxs.append({"route": "py:_distance_matrix_idxs:raised", "r": [-3], "c": [-3]})
-    else:
-        idxs.append({"route": "py:_distance_matrix_idxs", "r": [int(x) for x in r[0]], "c": [int(x) for x in r[1]]})
+    if hasattr(dtw, "_distance_matrix_idxs"):
+        r = dtwx.guarded(lambda: dtw._distance_matrix_idxs(blk, n))
+        if dtwx.is_raised(r):
+            idxs.append({"route": "py:_distance_matrix_idxs:raised", "r": [-3], "c": [-3]})
+        else:
+            idxs.append({"route": "py:_distance_matrix_idxs", "r": [int(x) for x in r[0]], "c": [int(x) for x in r[1]]})
     # compact results
     if nd == 1:
         _compact(c, "py:dtw.distance_matrix[list]", lambda: dtw.distance_matrix(sl, block=blk, compact=True, **kw), compact)
